@@ -183,7 +183,13 @@ def pick_op(rng, entry, ctx):
         def idg():
             cnt[0] += 1
             return "A%d" % cnt[0]
-        args = [recipes.strip(confgen.gen_rule(rng, confgen.ITEMS[:5], idg, p_id=0.5))]
+        rule = recipes.strip(confgen.gen_rule(rng, confgen.ITEMS[:5], idg, p_id=0.5))
+        wide = [i for i, n_ in graph.items() if n_["leaf"] and tuple(n_["b"]) != (0, 1)]
+        if wide and rng.random() < 0.5:
+            # the rule mentions, by id only, an item that this configurator declares with other bounds
+            rule = {"k": "Imply", "id": None, "args": [{"k": "All", "id": None, "args": [{"k": "str", "id": rng.choice([i for i in graph if graph[i]["leaf"]])}]},
+                                                        {"k": "AtLeast", "id": None, "args": [{"k": "str", "id": rng.choice(wide)}], "value": 1}]}
+        args = [rule]
     else:
         args = []
     return op, args, named
@@ -257,6 +263,12 @@ def run_case(case, ctx):
             ctx.count("count:calls-naming-compound-id")
             named_any = True
         call = {"object": k, "op": op, "args": args, "history": opseq[-12:], "bases": case["bases"]}
+        if op == "add" and "argument" in histops.LAST:
+            a0, a1 = histops.LAST.pop("argument")
+            ctx.judged("purity")
+            if a0 != a1:
+                ctx.violation("purity", dict(call, changed_object="the rule passed to add()", diff=digest.first_diff(a0[0], a1[0]) or "packed form changed"), {"writes": writes})
+                return
         # ---- purity: every live object ------------------------------------------------------------------------
         for j, other in enumerate(live):
             new = histops.object_state(other["obj"])
